@@ -530,6 +530,20 @@ func genFull(seed int64, property string) *Plan {
 		jc2.LastScheduled, jc2.LastUpdated = nil, nil
 		p.Ops = append(p.Ops, UserOp{AtMs: at + int64(500+r.Intn(8000)), Kind: "createJobConfig", NS: jc.NS, Name: jc.Name, JC: &jc2})
 	}
+	if property == "C09" && len(jobNames) > 0 && r.Intn(3) == 0 {
+		// delete a Job and re-create it under the same name while the old incarnation's
+		// tasks may still exist (they carry the same deterministic names)
+		name := jobNames[r.Intn(len(jobNames))]
+		for _, op := range p.Ops {
+			if op.Kind == "createJob" && op.Name == name {
+				at := op.AtMs + int64(1500+r.Intn(15000))
+				p.Ops = append(p.Ops, UserOp{AtMs: at, Kind: "deleteJob", NS: "default", Name: name})
+				again := *op.Job
+				p.Ops = append(p.Ops, UserOp{AtMs: at + int64(50+r.Intn(4000)), Kind: "createJob", NS: "default", Name: name, Job: &again})
+				break
+			}
+		}
+	}
 	if property == "C09" {
 		// foreign pods occupying task names
 		if r.Intn(2) == 0 && len(jobNames) > 0 {
@@ -581,11 +595,12 @@ func genFull(seed int64, property string) *Plan {
 			pf.KindN = 1 + r.Intn(4)
 			p.Pinned = append(p.Pinned, pf)
 		}
-		for i, n := 0, r.Intn(3); i < n; i++ {
+		// C20 is about failed/conflicting/timed-out API calls only: no cache lag or relist
+		for i, n := 0, r.Intn(3); i < n && property != "C20"; i++ {
 			res := []string{"jobs", "pods", "jobconfigs"}[r.Intn(3)]
 			p.Lags = append(p.Lags, LagPlan{AtMs: int64(r.Intn(int(durMs))), DurMs: int64(500 + r.Intn(15000)), Res: res})
 		}
-		if r.Intn(3) == 0 {
+		if r.Intn(3) == 0 && property != "C20" {
 			p.Relists = append(p.Relists, RelistPlan{AtMs: int64(r.Intn(int(durMs))), Res: []string{"jobs", "pods", "jobconfigs"}[r.Intn(3)]})
 		}
 	}
